@@ -26,18 +26,11 @@ type acct struct {
 	idx  int
 }
 
-type part struct {
-	acct  acct
-	coins std.Coins
-}
-
 type msgOp struct {
 	kind    string
 	from    int // master index
 	to      acct
 	coins   std.Coins
-	ins     []part
-	outs    []part
 	realm   int
 	fn      string // noop | fail | grow | pay
 	n       int64
@@ -171,33 +164,6 @@ func pCoins(s string) (std.Coins, bool) {
 	return cs, true
 }
 
-func pParts(s string, mastersOnly bool) ([]part, bool) {
-	if s == "-" {
-		return nil, true
-	}
-	items := strings.Split(s, ",")
-	if len(items) > 4 {
-		return nil, false
-	}
-	var out []part
-	for _, it := range items {
-		i := strings.IndexByte(it, '~')
-		if i < 0 {
-			return nil, false
-		}
-		a, ok := pAcct(it[:i])
-		if !ok || (mastersOnly && a.kind != 'm') {
-			return nil, false
-		}
-		cs, ok := pCoins(it[i+1:])
-		if !ok {
-			return nil, false
-		}
-		out = append(out, part{a, cs})
-	}
-	return out, true
-}
-
 func pPaths(s string) ([]string, bool) {
 	if s == "-" {
 		return nil, true
@@ -242,13 +208,6 @@ func pMsg(s string, auth map[int]int) (msgOp, bool) {
 		to, ok2 := pAcct(f[2])
 		cs, ok3 := pCoins(f[3])
 		return msgOp{kind: "send", from: from, to: to, coins: cs}, ok1 && ok2 && ok3
-	case "msend":
-		if len(f) != 3 {
-			return bad, false
-		}
-		ins, ok1 := pParts(f[1], true)
-		outs, ok2 := pParts(f[2], false)
-		return msgOp{kind: "msend", ins: ins, outs: outs}, ok1 && ok2
 	case "exec":
 		if len(f) != 5 || len(f[2]) != 2 || f[2][0] != 'r' {
 			return bad, false
@@ -397,13 +356,6 @@ func parseOp(t []string) (*txOp, bool) {
 
 // msgSigners mirrors Msg.GetSigners for the message kinds used here.
 func (m msgOp) msgSigners() []int {
-	if m.kind == "msend" {
-		var out []int
-		for _, in := range m.ins {
-			out = append(out, in.acct.idx)
-		}
-		return out
-	}
 	return []int{m.from}
 }
 
